@@ -1079,3 +1079,7 @@ mod test {
         server.reset();
     }
 }
+
+#[cfg(any(kani, libtw2_verif))]
+#[path = "/verif/kani/net_connection7.rs"]
+mod verif_kani;
